@@ -17,6 +17,7 @@ from bfsa.terms import C, NONE, Term, cval, is_const, mk, show, subterms
 from bfsa.types import type_of
 
 from rules.bf3 import _self_attr
+from rules import stackrt
 
 LEVEL = "other"
 CID = "bec2format.configid"
@@ -331,6 +332,65 @@ def eq_rule(prog, chk, pid):
     chk.require(ok, "%s.equality-all-fields" % pid, fi.qualname, "customer, project, device, version, name all compared", "%s:%d" % (fi.file, fi.lineno), "two identifiers are equal exactly when all five fields are equal", "equality ignores a field")
 
 
+def naming_scenarios(prog, chk, pid, tier):
+    """create_from_prj_settings / create_from_dev_settings on EVERY subset of the 0x0620 naming values (constant-folded through
+    the repository code by the interpreter in concrete-control mode; nothing is executed)"""
+    import itertools
+
+    from rules import stackrt as R
+
+    P = lambda s: "%s.%s" % (pid, s)
+    stk = R.Stack(prog)
+    CID = "bec2format.configid"
+    vals = {"customer": [(10234).to_bytes(2, "big"), (10234).to_bytes(4, "big"), (9999).to_bytes(2, "big")], "project": [(17).to_bytes(2, "big"), (0).to_bytes(1, "big")],
+            "device": [(6789).to_bytes(2, "big"), (0).to_bytes(2, "big")], "name": [b"Testname"], "version": [bytes([9]), (9).to_bytes(2, "big")]}
+    kinds = {
+        "prj": ("create_from_prj_settings", {"customer": 0x01, "project": 0x05, "device": 0x02, "name": 0x06, "version": 0x07}, "MissingProjectSettingsNameError"),
+        "dev": ("create_from_dev_settings", {"customer": 0x01, "device": 0x02, "name": 0x03, "version": 0x04}, "MissingDeviceSettingsNameError"),
+    }
+    for kind, (meth, keys, err) in kinds.items():
+        fi = prog.method(CID + ".ConfigId", meth)
+        bad = None
+        n = 0
+        fields = list(keys)
+        for r in range(len(fields) + 1):
+            for subset in itertools.combinations(fields, r):
+                choices = [vals[f] if tier == "thorough" or f == "customer" else vals[f][:1] for f in subset]
+                for combo in itertools.product(*choices):
+                    n += 1
+                    given = dict(zip(subset, combo))
+                    # a stray key of the other settings kind must not matter
+                    items = ", ".join("(0x620, 0x%02x): %r" % (keys[f], v) for f, v in given.items())
+                    src = "def drv():\n    c = ConfigId.%s({%s})\n    return (c.customer, c.project, c.device, c.version, c.name)\n" % (meth, items)
+                    ex, res = stk.run(CID, src, {})
+                    iv = lambda f: int.from_bytes(given[f], "big")
+                    unk = lambda v: None if v == 9999 else v
+                    # the reference, from the property statement
+                    if "version" not in given:
+                        want = ("raise", err)
+                    else:
+                        complete = "customer" in given and (kind == "dev" or "project" in given)
+                        name = given["name"].decode() if "name" in given else None
+                        if complete:
+                            want = ("value", (unk(iv("customer")), unk(iv("project")) if kind == "prj" else 0, unk(iv("device")) if "device" in given else 0, iv("version"), name))
+                        elif name:
+                            want = ("value", (None, None, None, iv("version"), name))
+                        else:
+                            want = ("raise", err)
+                    if res.dead:
+                        exc = str(ex._dead[1]) if ex._dead else "?"
+                        got = ("raise", exc.rsplit(".", 1)[-1])
+                    else:
+                        t = unsnap(res.ret)
+                        parts = t.args[0] if t.op == "tuple" else ([C(x) for x in cval(t)] if is_const(t) else None)
+                        got = ("value", tuple(cval(x) if is_const(x) else show(x, 3) for x in parts)) if parts is not None else ("value", show(t, 4))
+                    if got != want and bad is None:
+                        bad = (sorted(given), "gives %s, the property requires %s" % (got, want))
+        chk.require(bad is None, P("naming-subsets"), fi.qualname, "%d configurations: every subset of {%s}, several byte widths, the 'unknown' customer code" % (n, ", ".join(fields)), "%s:%d" % (fi.file, fi.lineno),
+                    "for every subset of naming values the identifier denotes exactly the given values (device defaults to 0), falls back to the name-only form when customer%s is missing, and raises %s when the version or a required name is missing" % ("/project" if kind == "prj" else "", err),
+                    "naming values %s: %s" % bad if bad else "")
+
+
 def run(prog, chk, tier):
     chk.explanation = ("The printers' str.format templates and the parser's regular expressions are parsed (string.Formatter / re's own parser) into item sequences and compared "
                        "item by item: widths, zero padding, separators, and -- through the constructor keywords -- which group feeds which printed attribute; the optional "
@@ -340,6 +400,7 @@ def run(prog, chk, tier):
     r = correspondence_rules(prog, chk, "C12")
     nullable_rules(prog, chk, "C12")
     naming_lookup_rules(prog, chk, "C12")
+    stackrt.guarded(chk, "C12.naming-scenarios", naming_scenarios, prog, chk, "C12", tier)
     eq_rule(prog, chk, "C12")
     if r is not None:
         ambiguity_rule(prog, chk, "C12", r[0])
